@@ -26,7 +26,7 @@ RULE = ('five streams from one PRNG: (1) table rows (width 1..8; empty cells fir
         'generic_line_parser; (2) VW lines built from (label, namespace entries, token lists, spacing, absent / unknown / repeated '
         'namespaces); (3) arbitrary short strings over {a b 1 , " space tab e-acute \\n \\r} against parse_ob_csv_line (malformed CSV, '
         'errors as an enum); (4) namespace files (2- and 3-field lines, f32 types, overwritten ids, junk lines) through the real '
-        'parse_namespace; (5) whole files through the real streaming loop with rows of the right and of the wrong width. '
+        'parse_namespace; (5) whole files through the real streaming loop with rows of the right and of the wrong width; (6) files of 2-4 MiB (14000-26000 rows of mostly multi-byte characters) through the same loop, oracle only. '
         'Non-trivial = a case with an empty edge cell, an edge whitespace character, a quoted cell, an absent namespace, a wrong-width '
         'row or a malformed line; distinct = distinct (format, input line/file).')
 ASSUMPTIONS = ['file decoding (utf-8 / latin1) and text-mode line splitting are CPython\'s; lines reaching the parsers contain no line break except their terminator',
@@ -613,6 +613,56 @@ def corpus():
     ]
 
 
+def big_rows(spec):
+    """rows of a file of several MiB whose cells are mostly multi-byte characters (2, 3 and 4 bytes in UTF-8): wherever a reader
+    cuts the byte stream, it most probably cuts inside a character"""
+    import random
+    r = random.Random(f'big:{spec["seed"]}')
+    words = ['São Paulo', 'ñandú', '日本語テキスト', 'Ünïcödé', '😀😀', 'Ελληνικά', 'žluťoučký', 'naïve café', 'Москва', '한국어']
+    rows = []
+    for i in range(spec['nrows']):
+        rows.append([str(i)] + [r.choice(words) * r.randint(1, 3) for _ in range(spec['n'] - 1)])
+    return rows
+
+
+def evaluate_big_stream(ctx: Ctx, specs):
+    """tab-separated / comma-separated files of 2..4 MiB through the real streaming loop: every well-formed row enters a
+    mini-batch with exactly its fields, in order (oracle only: the property's own clause; the model is not run on 10^4 rows)"""
+    for spec in specs:
+        rows = big_rows(spec)
+        fmt = spec['fmt']
+        c = {'kind': 'stream', 'fmt': fmt, 'mb': spec['mb'], 'header': [f'c{i}' for i in range(spec['n'])], 'final_nl': 1,
+             'items': [{'row': r, 'text': ('\t' if fmt == 'ob-raw-dump' else ',').join(r)} for r in rows]}
+        ctx.evaluations += 1
+        ctx.count('stream-big:' + fmt)
+        size = len(stream_text(c).encode('utf-8'))
+        got = outcome(lambda: list(impl_stream(c)))
+        show = f'{fmt} file of {size} bytes, {len(rows)} rows of {spec["n"]} fields with multi-byte characters (generated from seed {spec["seed"]}), minibatch {spec["mb"]}'
+        if isinstance(got, Atom):
+            ctx.oracle_fail('stream-raises', f'{show}: the streaming loop raised {got}', {'bigstream': spec})
+            continue
+        keep = (len(rows) // spec['mb']) * spec['mb']
+        if got[0] != rows[:keep]:
+            i = next((i for i, (a, b) in enumerate(zip(got[0], rows)) if a != b), min(len(got[0]), keep))
+            ctx.oracle_fail('batch-row', f'{show}: row {i} entered as {got[0][i] if i < len(got[0]) else None!r}, the file has {rows[i]!r} '
+                            f'({len(got[0])} rows entered, {keep} expected)', {'bigstream': spec})
+        elif got[1] != 0:
+            ctx.oracle_fail('arity-count', f'{show}: no malformed row but {got[1]} lines reported invalid', {'bigstream': spec})
+
+
+def big_specs(rng, k):
+    return [{'fmt': rng.choice(['ob-raw-dump', 'ob-raw-dump', 'csv-raw']), 'n': rng.choice([3, 4, 6]), 'nrows': rng.choice([14000, 20000, 26000]),
+             'mb': rng.choice([1000, 2000]), 'seed': rng.randrange(10 ** 6)} for _ in range(k)]
+
+
+def replay(ctx: Ctx, payload):
+    c = payload['case']
+    if isinstance(c, dict) and 'bigstream' in c:
+        evaluate_big_stream(ctx, [c['bigstream']])
+    else:
+        evaluate(ctx, [c])
+
+
 def gen_cases(rng, n_table, n_vw, n_mal, n_ns, n_stream):
     return ([gen_table_case(rng) for _ in range(n_table)] + [gen_vw_case(rng) for _ in range(n_vw)] +
             [gen_malformed_case(rng) for _ in range(n_mal)] + [gen_ns_case(rng) for _ in range(n_ns)] +
@@ -622,6 +672,7 @@ def gen_cases(rng, n_table, n_vw, n_mal, n_ns, n_stream):
 def run(ctx: Ctx):
     k = 60 if ctx.thorough() else 1
     evaluate(ctx, corpus() + gen_cases(ctx.rng, 3000 * k, 1200 * k, 3000 * k, 300 * k, 150 * k))
+    evaluate_big_stream(ctx, big_specs(ctx.rng, 6 if ctx.thorough() else 2))
     ctx.extra['excluded_regions'] = {k2: v for k2, v in ctx.dist.items() if 'outside' in k2 or 'free-form' in k2}
 
 
@@ -630,4 +681,5 @@ def search(ctx: Ctx):
     sub = Ctx(ctx.prop, ctx.tier)
     sub.rng.seed(f'search:{ctx.seed}')
     evaluate(sub, corpus() + gen_cases(sub.rng, 24000, 9600, 0, 2400, 1200), oracle_only=True)
+    evaluate_big_stream(sub, big_specs(sub.rng, 3))
     return sub.oracle_failures
